@@ -7,7 +7,7 @@
  * talks about (priorities pushed and popped, values before and after a sort, keys in traversal
  * order, ...), not the link state.  They are judged by TLC with spec/TraceBig.tla.
  *
- * usage: drv_big <out> <seed> <what>...     what = heap:<n> | slist:<n> | dlist:<n> | rb:<n> | bst:<n> | map:<n>
+ * usage: drv_big <out> <seed> <what>...     what = heap:<n> | slist:<n> | dlist:<n> | rb:<n> | bst:<n> | map:<n> | hash:<n>
  */
 #include <stdio.h>
 #include <stdlib.h>
@@ -22,6 +22,7 @@
 #include "cstl/dlist.h"
 #include "cstl/rbtree.h"
 #include "cstl/map.h"
+#include "cstl/hash.h"
 
 static FILE *out;
 static long rec_id;
@@ -44,7 +45,7 @@ static int cmp3(long a, long b)
 }
 struct el {
     long v; long id; int cleared;
-    struct cstl_heap_node hn; struct cstl_slist_node sn; struct cstl_dlist_node dn; struct cstl_rbtree_node rn;
+    struct cstl_heap_node hn; struct cstl_slist_node sn; struct cstl_dlist_node dn; struct cstl_rbtree_node rn; struct cstl_hash_node xn;
 };
 static struct el *pool; static long NP;
 static int cmp(const void *a, const void *b, void *p)
@@ -275,6 +276,74 @@ static void do_map(long n)
     free(mkeys); free(mseen);
 }
 
+/* ---- hash table: n distinct keys, the table doubled whenever the load passes 1 (so almost every insert runs
+ * while an incremental rehash is pending), find all, walk, erase every other element, shrink, walk, clear, reuse.
+ * With distinct keys and the identity hash every bucket holds at most one element, so the number of hash calls an
+ * operation makes bounds the buckets it relocated. ---- */
+static unsigned long hcalls, hbad;
+static size_t hid(size_t k, size_t m) { size_t r = k % m; hcalls++; if (m == 0) hbad++; return r; }
+static size_t hid2(size_t k, size_t m) { size_t r = (k * 7 + 3) % m; hcalls++; return r; }
+static unsigned char *hseen; static long hvis, hvis_once;
+static int hvisit(void *e, void *p) { long id = id_of(e); (void)p; if (id <= 0 || hseen[id]) hvis_once = 0; else hseen[id] = 1; hvis++; return 0; }
+static void hclear(void *e, void *p) { struct el *x = e; (void)p; if (id_of(e) <= 0 || x->cleared) clr_once = 0; else x->cleared = 1; nclr++; memset(&x->xn, 0xA5, sizeof x->xn); }
+static void do_hash(long n)
+{
+    struct cstl_hash H; long i; int sig;
+    fresh_pool(n);
+    hseen = calloc((size_t)n + 1, 1);
+    for (i = 1; i <= n; i++) pool[i].v = i * 3;            /* distinct keys */
+    begin("hashbig", n);
+    sig = sigsetjmp(jb, 1);
+    if (sig == 0) {
+        long found = 0, notfound = 0, resizes = 0, maxcalls = 0, overdue = 0, size1, vis1, once1, erased = 0, size2, vis2, once2, gone_found = 0, size3, size4;
+        long pend_ops = 0, pend_budget = 0; unsigned long c0;
+        alarm(120);
+        cstl_hash_init(&H, offsetof(struct el, xn));
+        cstl_hash_resize(&H, 16, hid);
+        for (i = 1; i <= n; i++) {
+            if ((size_t)i > H.bucket.count && H.bucket.rh.hash == NULL) {       /* grow; the rehash is worked off by the operations that follow */
+                pend_budget = (long)H.bucket.count; pend_ops = 0;
+                cstl_hash_resize(&H, H.bucket.count * 2, (resizes++ % 3 == 2) ? hid2 : NULL);
+            }
+            c0 = hcalls;
+            cstl_hash_insert(&H, (size_t)pool[i].v, &pool[i]);
+            if ((long)(hcalls - c0) > maxcalls) maxcalls = (long)(hcalls - c0);
+            if (pend_budget) { pend_ops++; if (H.bucket.rh.hash == NULL) pend_budget = 0; else if (pend_ops > pend_budget) overdue++; }
+        }
+        size1 = (long)cstl_hash_size(&H);
+        for (i = 1; i <= n; i++) {
+            c0 = hcalls;
+            if (cstl_hash_find(&H, (size_t)pool[i].v, NULL, NULL) == &pool[i]) found++;
+            if ((long)(hcalls - c0) > maxcalls) maxcalls = (long)(hcalls - c0);
+        }
+        if (cstl_hash_find(&H, 1, NULL, NULL) == NULL && cstl_hash_find(&H, (size_t)n * 3 + 1, NULL, NULL) == NULL) notfound = 1;
+        hvis = 0; hvis_once = 1; cstl_hash_foreach(&H, hvisit, NULL); vis1 = hvis; once1 = hvis_once;
+        for (i = 2; i <= n; i += 2) { cstl_hash_erase(&H, &pool[i]); erased++; memset(&pool[i].xn, 0xA5, sizeof pool[i].xn); }
+        size2 = (long)cstl_hash_size(&H);
+        cstl_hash_resize(&H, H.bucket.count / 8 + 1, NULL);                    /* shrink, pending */
+        for (i = 2; i <= n; i += 2) if (cstl_hash_find(&H, (size_t)pool[i].v, NULL, NULL) != NULL) gone_found++;
+        memset(hseen, 0, (size_t)n + 1);
+        hvis = 0; hvis_once = 1; cstl_hash_foreach(&H, hvisit, NULL); vis2 = hvis; once2 = hvis_once;
+        for (i = 1; i <= n; i += 2) if (!hseen[i]) once2 = 0;
+        cstl_hash_shrink_to_fit(&H);
+        nclr = 0; clr_once = 1;
+        for (i = 2; i <= n; i += 2) pool[i].cleared = 1;                        /* erased: must not be handed to clear */
+        cstl_hash_clear(&H, hclear);
+        size3 = (long)cstl_hash_size(&H);
+        cstl_hash_resize(&H, 8, hid);
+        for (i = 1; i <= 5; i++) { pool[i].cleared = 0; cstl_hash_insert(&H, (size_t)pool[i].v, &pool[i]); }
+        size4 = (long)cstl_hash_size(&H);
+        cstl_hash_clear(&H, NULL);
+        alarm(0);
+        fprintf(out, "\"size\":%ld,\"found\":%ld,\"absent\":%s,\"resizes\":%ld,\"maxcalls\":%ld,\"overdue\":%ld,\"visited1\":%ld,\"once1\":%s,"
+                "\"erased\":%ld,\"size2\":%ld,\"gonefound\":%ld,\"visited\":%ld,\"once\":%s,\"cleared\":%ld,\"clronce\":%s,\"size3\":%ld,\"size4\":%ld,\"hbad\":%lu",
+                size1, found, notfound ? "true" : "false", resizes, maxcalls, overdue, vis1, once1 ? "true" : "false",
+                erased, size2, gone_found, vis2, once2 ? "true" : "false", nclr, clr_once ? "true" : "false", size3, size4, hbad);
+        end_ok();
+    } else { alarm(0); end_sig(sig); }
+    free(hseen);
+}
+
 int main(int argc, char **argv)
 {
     int a;
@@ -296,6 +365,7 @@ int main(int argc, char **argv)
         else if (!strncmp(argv[a], "rb", 2)) do_tree(n, 1);
         else if (!strncmp(argv[a], "bst", 3)) do_tree(n, 0);
         else if (!strncmp(argv[a], "map", 3)) do_map(n);
+        else if (!strncmp(argv[a], "hash", 4)) do_hash(n);
     }
     fclose(out);
     printf("{\"records\":%ld}\n", rec_id);
